@@ -163,8 +163,12 @@ def roundtrip(stack, c, serde_name, key, value, chunks, coll):
         if g4[0] != want or type(g4[0]) is not type(want) or g4[1] != g2[1]:
             return "gats returned %r (%s), gets returned %r" % (repr(g4)[:100], type(g4[0]).__name__, repr(g2)[:100])
         ks = [other, key, b"absent"]
-        arg = {"list": lambda: list(ks), "tuple": lambda: tuple(ks), "set": lambda: set(ks), "dict_keys": lambda: dict.fromkeys(ks).keys(),
-               "iterator": lambda: iter(list(ks)), "generator": lambda: (k for k in ks)}[coll]()
+        mk_arg = {"list": lambda: list(ks), "tuple": lambda: tuple(ks), "set": lambda: set(ks), "dict_keys": lambda: dict.fromkeys(ks).keys(),
+                  "iterator": lambda: iter(list(ks)), "generator": lambda: (k for k in ks)}[coll]
+        arg = mk_arg()
+        gmany = cl.gets_many(mk_arg())          # the same kind of collection (a fresh one: one-shot iterators are used up) for the cas form
+        if set(gmany.keys()) != {other, key} or gmany[key][0] != want or type(gmany[key][0]) is not type(want) or gmany[key][1] != g2[1]:
+            return "gets_many(%s) returned keys %r with %r (gets gave %r)" % (coll, sorted(map(repr, gmany.keys())), repr(gmany.get(key))[:80], repr(g2)[:60])
         many = cl.get_many(arg)
         if set(many.keys()) != {other, key} or many[key] != want or type(many[key]) is not type(want):
             return "get_many(%s) returned keys %r with %r" % (coll, sorted(map(repr, many.keys())), repr(many.get(key))[:80])
